@@ -81,6 +81,8 @@ def cx : SemCtx Nat where
   userDiscr := userDiscrOf it.variants
   impls := fun f args => match f, args with
     | .clone, [v] => some v
+    | .cmp, [_, _] => some (.ord .eq)
+    | .zeroize, [_] => some .unit
     | _, _ => none
 
 theorem tiOK : ItemTiOK cx cfg it := by
@@ -155,8 +157,24 @@ theorem implsOK : ImplsOK it cx :=
   ⟨fun a v h ha => by
       have : v = a := by simpa [cx] using h.symm
       exact this ▸ ha,
-   fun a b v h => by simp [cx] at h,
-   fun a v h => by simp [cx] at h⟩
+   fun a b v h => ⟨.eq, by simpa [cx] using h.symm⟩,
+   fun a v h => by simpa [cx] using h.symm⟩
+
+theorem cxTotal : CxTotal it cx := by
+  refine ⟨?_, ?_, fun a _ => rfl, fun a b _ _ => rfl, fun a _ => rfl⟩
+  · intro k d hd hdisc
+    show ((userDiscrOf it.variants) k).isSome = true
+    have hd' : it.variants[k]? = some d := hd
+    simp only [userDiscrOf, hd', Option.bind_some, Option.isSome_map]
+    exact hdisc
+  · intro h; exact absurd h (by decide)
+
+/-- `C02_never_stuck` applied to it. -/
+example : ∀ dw ∈ inp.deriveWheres, ∀ t ∈ dw.traits, ∀ im ∈ generateImpl cfg inp dw t, ∀ m ∈ im.methods,
+    runMethod cx m.body (.adt 0 [.leaf 7]) (some (.adt 2 [.leaf 2])) ≠ .stuck :=
+  fun dw hdw t ht im him m hm =>
+    C02_never_stuck cfg raw rawOK inp inp_ok dw hdw t ht cx implsOK cxTotal im him m hm _ _ vals.1
+      (fun _ => ⟨_, rfl, vals.2⟩)
 
 /-- `C02_preservation` applied to it: whatever the generated `partial_cmp` returns for `A(7)` and `C { x: 2 }` is an
 `Option<Ordering>`. -/
